@@ -2,6 +2,7 @@ package props
 
 import (
 	"fmt"
+	"os"
 	"strconv"
 	"strings"
 
@@ -98,6 +99,20 @@ func c02Check(e *core.Env, r *core.Rand, d *gen.Out, today ref.Date, nowCase boo
 			e.Count("cases_with_two_input_files", 1)
 		}
 	}
+	twice := false
+	if len(in) == 1 && len(doc.Recs) > 0 && core.Hash64("c02-twice", d.Text)%12 == 0 {
+		// the same file named twice (once by another spelling of its path): its records count twice
+		second := e.Dir + "/sub/../c02.klg"
+		_ = os.MkdirAll(e.Dir+"/sub", 0755)
+		if core.Hash64("c02-twice-spelling", d.Text)%2 == 0 {
+			second = f
+		}
+		in = files(f, second)
+		doc = &ref.Doc{Recs: append(append([]ref.Rec{}, doc.Recs...), doc.Recs...)}
+		twice = true
+		w["input_files"] = []string{f, second}
+		e.Count("cases_with_the_same_file_given_twice", 1)
+	}
 	extra := make([]int, len(doc.Recs))
 	mustFail := false
 	closed := false
@@ -167,7 +182,7 @@ func c02Check(e *core.Env, r *core.Rand, d *gen.Out, today ref.Date, nowCase boo
 			return
 		}
 	}
-	if !mustFail && e.KlogBin != "" && d.Text != "" && core.Hash64("c02-stdin", d.Text)%10 == 0 && !strings.Contains(d.Text, "\x00") {
+	if !mustFail && !twice && e.KlogBin != "" && d.Text != "" && core.Hash64("c02-stdin", d.Text)%10 == 0 && !strings.Contains(d.Text, "\x00") {
 		// the whole program with the text on its standard input (`cat FILE | klog total`)
 		args := []string{"total", "--diff", "--no-warn", "--no-style"}
 		if nowCase {
